@@ -9,6 +9,7 @@ import (
 	"go/token"
 	"go/types"
 	"slices"
+	"strings"
 
 	"golang.org/x/tools/go/ssa"
 )
@@ -89,13 +90,13 @@ func constValue(c *ssa.Const) Value {
 // global returns the address of a package-level variable, initialising its
 // package on first touch.
 func (ex *Exec) global(g *ssa.Global) *Value {
+	if !initAllowed(g.Pkg.Pkg.Path(), ex.w.prog.targetPath) && !zeroGlobalOK[g.Pkg.Pkg.Path()+"."+g.Name()] {
+		panic(unsupported("global of a package whose initialiser is not interpreted: " + g.Pkg.Pkg.Path() + "." + g.Name()))
+	}
 	if p, ok := ex.globals[g]; ok {
 		return p
 	}
 	ex.initPackage(g.Pkg)
-	if !initAllowed(g.Pkg.Pkg.Path(), ex.w.prog.targetPath) && !zeroGlobalOK[g.Pkg.Pkg.Path()+"."+g.Name()] {
-		panic(unsupported("global of a package whose initialiser is not interpreted: " + g.Pkg.Pkg.Path() + "." + g.Name()))
-	}
 	if p, ok := ex.globals[g]; ok {
 		return p
 	}
@@ -170,6 +171,7 @@ func (ex *Exec) rtPanic(format string, args ...interface{}) {
 	if ex.merging > 0 {
 		panic(mergeBail{})
 	}
+	ex.panicStack = ex.stackString()
 	panic(runtimeErr{fmt.Sprintf(format, args...)})
 }
 
@@ -755,3 +757,11 @@ func (ex *Exec) doRecover(caller *frame) Value {
 }
 
 var _ = token.ADD
+
+func (ex *Exec) stackString() string {
+	var st []string
+	for i := len(ex.callStack) - 1; i >= 0 && len(st) < 8; i-- {
+		st = append(st, ex.callStack[i].String())
+	}
+	return strings.Join(st, " < ")
+}
